@@ -24,6 +24,7 @@ pub fn def() -> CheckDef {
         assumptions: &["name order/equality model exact only for agreed character classes (names.rs); disputed classes judged as described", "path syntax is Unix (the sandbox OS)"],
         cpu_limit_s: 30,
         fault_kinds: "none (seam-level write counter for refused creations)",
+        count_subruns: false,
     }
 }
 
